@@ -130,6 +130,7 @@ type StateJ struct {
 	Conds    []CondJ    `json:"conds"`
 	Fcs      []FCJ      `json:"fcs"`
 	Listed   []ListedJ  `json:"listed"`
+	Locks    []string   `json:"locks"`
 }
 
 // canon sorts everything that is a map or a set on the Go side (and has no order in the model either) and
@@ -156,6 +157,10 @@ func (s *StateJ) canon() {
 	if s.Listed == nil {
 		s.Listed = []ListedJ{}
 	}
+	if s.Locks == nil {
+		s.Locks = []string{}
+	}
+	sort.Strings(s.Locks)
 	sort.Slice(s.Hb, func(i, j int) bool { return s.Hb[i].I < s.Hb[j].I })
 	sort.Ints(s.Leaders)
 	sort.Ints(s.Shards)
